@@ -5,50 +5,38 @@ from rules import agent_e2 as AE
 
 LEVEL = "proof"
 
-MAP_ALLOW = {
-    r"StunAgent::send$": {("ref", r"(Hash|BTree)Map::<.*>::contains_key::<"), ("refmut", r"(Hash|BTree)Map::<.*>::insert$")},
-    r"StunAgent::handle_stun$": {("refmut", r"(Hash|BTree)Map::<.*>::insert$")},
-    r"StunAgent::take_outstanding_request$": {("refmut", r"(Hash|BTree)Map::<.*>::remove::<")},
-    r"StunAgent::request_transaction$": {("ref", r"(Hash|BTree)Map::<.*>::contains_key::<")},
-    r"StunAgent::mut_request_transaction$": {("ref", r"(Hash|BTree)Map::<.*>::contains_key::<")},
-    r"StunAgent::mut_request_state$": {("refmut", r"(Hash|BTree)Map::<.*>::get_mut::<")},
-    r"StunAgent::request_state$": {("ref", r"(Hash|BTree)Map::<.*>::get::<")},
-    r"StunAgent::poll$": {("refmut", r"(Hash|BTree)Map::<.*>::(values_mut|iter_mut|get_mut::<.*|remove::<.*)$"),
-                          ("ref", r"(Hash|BTree)Map::<.*>::(keys|len|is_empty|get::<.*|contains_key::<.*|iter|values)$")},
-    r"<stun_proto::agent::StunAgent as std::fmt::Debug>::fmt$": {("ref", r"^(core|std)::fmt::")},
-}
-CANCEL_ALLOW = {
-    r"StunRequestMut::<'a>::cancel$": {("write", r"^-$")},
-    r"StunRequestMut::<'a>::cancel_retransmissions$": {("write", r"^-$")},
-    r"StunRequestState::poll$": {("copy", r"^-$")},
-    r"<stun_proto::agent::StunRequestState as std::fmt::Debug>::fmt$": {("ref", r"^(core|std)::fmt::")},
-}
+# who may touch the transaction map and the cancellation flags (function level; what each writer does is its table)
+MAP_WRITERS = [r"StunAgent::send$", r"StunAgent::handle_stun$", r"StunAgent::take_outstanding_request$", r"StunAgent::mut_request_state$", r"StunAgent::poll$"]
+MAP_READERS = [r"StunAgent::request_transaction$", r"StunAgent::mut_request_transaction$", r"StunAgent::request_state$"]
+CANCEL_WRITERS = [r"StunRequestMut::<'a>::cancel$", r"StunRequestMut::<'a>::cancel_retransmissions$"]
+CANCEL_READERS = [r"StunRequestState::poll$"]
 
 
 def run(prog, chk, tier):
     chk.explanation = (
-        "Complete per-call transition relation of the transaction map, extracted from the MIR control-flow graphs of "
-        "send / handle_stun / take_outstanding_request / StunRequestState::poll / StunAgent::poll by a guided walk "
-        "(every valuation of the tracked predicates; unrecognised guards fail closed) and compared row by row with the "
-        "spec tables of DESIGN appendix A.4; plus who-may-access tables showing nothing else touches "
+        "The per-call transition relation of the transaction map, decided from the abstract interpreter's return states "
+        "(one row per return state: the facts the path decided, the net effect on the map as presence/absence of symbolic "
+        "keys, the value returned) of send, handle_stun (through take_outstanding_request and validated_peer), "
+        "StunRequestState::poll, StunAgent::poll and the request handles, each compared with the specification of DESIGN "
+        "appendix A; plus function-level who-may-touch tables showing that nothing else reads or writes "
         "outstanding_requests or the cancellation flags. With HashMap semantics the rows compose into the two-state "
         "typestate per id (absent/outstanding): delivery, time-out and cancellation happen only from `outstanding` and "
         "lead to `absent`; a refused send and a dropped response leave the state object untouched.")
-    chk.trusted += ["rustc MIR", "std::collections::HashMap insert/remove/contains_key semantics",
-                    "spec tables in pylib/rules/agent.py (transcribed from the property statement)"]
-    A.who_may_access(prog, chk, "who-may-access", A.AGENT_V, "outstanding_requests", MAP_ALLOW, 12)
+    chk.trusted += ["rustc MIR", "std::collections::HashMap insert/remove/contains_key/get_mut/values_mut semantics (model table)",
+                    "specification rows in pylib/rules/agent_e2.py (transcribed from the property statement)"]
+    AE.touchers(prog, chk, "who-may-access", A.AGENT_V, "outstanding_requests", MAP_READERS, MAP_WRITERS, 12)
     # a construction site outside the builder would create a second map
     from e1 import construct_sites
     cs = construct_sites(prog, A.AGENT)
     chk.ob("who-may-construct", "StunAgent built only by StunAgentBuilder::build",
            [c["body"] for c in cs] == ["stun_proto::agent::StunAgentBuilder::build"], detail=repr([c["body"] for c in cs]))
-    A.who_may_access(prog, chk, "who-may-access", A.REQ_V, "recv_cancelled", CANCEL_ALLOW, 3)
-    A.who_may_access(prog, chk, "who-may-access", A.REQ_V, "send_cancelled", CANCEL_ALLOW, 4)
+    AE.touchers(prog, chk, "who-may-access", A.REQ_V, "recv_cancelled", CANCEL_READERS, CANCEL_WRITERS, 3)
+    AE.touchers(prog, chk, "who-may-access", A.REQ_V, "send_cancelled", CANCEL_READERS, CANCEL_WRITERS, 4)
     A.no_whole_struct_writes(prog, chk, "no-struct-overwrite", A.REQ)
-    A.send_table(prog, chk)
-    A.handle_stun_table(prog, chk)
-    A.taken_state_untouched(prog, chk)
-    A.take_outstanding_table(prog, chk)
+    AE.send(prog, chk)
+    AE.handle_stun(prog, chk)
     AE.req_poll(prog, chk)
     AE.req_new(prog, chk, "request-new", {"fresh"})
-    A.agent_poll_table(prog, chk)
+    AE.agent_poll(prog, chk)
+    AE.handles(prog, chk, which=("cancel", "cancel_retransmissions", "configure_timeout"))
+    AE.handle_lookups(prog, chk)
